@@ -3,6 +3,7 @@ import ParryModel.C03.Model
 import ParryModel.C03.Lemmas
 import ParryModel.C03.Sat
 import ParryModel.C03.Theorems2
+import ParryModel.C03.Theorems3
 /-!
 # C03 property theorems: argument-order and frame independence.
 
